@@ -10,6 +10,7 @@ import io
 import itertools
 import json
 import os
+import re
 import sys
 
 from .. import canon, engine_i
@@ -62,8 +63,6 @@ def mapping_spellings(atom):
 
 def _value_token(v):
     """Command-line token of a scalar/list value, or None if its text does not cast back to itself."""
-    from signac.filterparse import _cast, _is_json_like, _is_regex
-
     if v is True:
         return "true"
     if v is False:
@@ -75,15 +74,9 @@ def _value_token(v):
     if isinstance(v, list):
         return json.dumps(v)
     if isinstance(v, str):
-        if not v or v == "!" or _is_json_like(v) or _is_regex(v) or any(c.isspace() for c in v):
-            return None
-        try:
-            import contextlib as _c
-            import io as _io
-            with _c.redirect_stderr(_io.StringIO()):
-                if _cast(v) != v or not isinstance(_cast(v), str):
-                    return None
-        except Exception:
+        # conservative, independent of signac's internals: purely alphabetic words that no reader could take for a
+        # number, a constant, JSON or a regular expression
+        if not re.fullmatch(r"[A-Za-z][A-Za-z_]*", v) or v.lower() in ("true", "false", "null", "none", "nan", "inf", "infinity"):
             return None
         return v
     return None
@@ -129,7 +122,7 @@ def _find_ids(kind, spelled, d):
     if kind == "tokens":
         with contextlib.redirect_stderr(io.StringIO()):
             f = parse_filter_arg(spelled) or None
-        return set(p._find_job_ids(filter=f))
+        return {j.id for j in p.find_jobs(f)}
     if kind == "cli":
         from signac.__main__ import main
 
@@ -338,11 +331,84 @@ def eval_cursor(item):
             "sample": {"corpus": ci, "filters": len(filters), "cursor_ops": n}}
 
 
+def eval_cursor_history(item):
+    """A cursor that was evaluated, then the workspace changes (a matching job appears, a matching job is removed), then the
+    SAME cursor is used again: whatever it reports, len / iteration / indexing / membership must describe one id set."""
+    import shutil
+
+    import signac
+
+    _, ci, salt = item
+    corpus = list(c06.disk_corpora())[ci]
+    viol, n = [], 0
+    base = os.path.join(c06.scratch.worker_dir(), f"c07-curhist-{ci}")
+    new_sp = {"a": 99, "s": salt, "fresh": True}
+    # (the unfiltered cursor answers len / membership from the live project by design; it is not part of this clause)
+    for f in ({"a": 99}, {"doc.x": 7}, {"a": {"$exists": True}}, {"fresh": True}, {"$or": [{"a": 99}, {"a": 1}]}):
+        for first_use in ("len", "iter", "contains"):
+            shutil.rmtree(base, ignore_errors=True)
+            os.makedirs(base)
+            p0 = signac.init_project(base)
+            handles = []
+            for sp, doc in corpus:
+                j = p0.open_job(dict(sp, s=salt)).init()
+                if doc:
+                    j.doc.update(doc)
+                handles.append(j)
+            p = signac.Project(base)
+            cur = p.find_jobs(f)
+            try:
+                if first_use == "len":
+                    len(cur)
+                elif first_use == "iter":
+                    list(cur)
+                else:
+                    p.open_job(new_sp) in cur
+                other = signac.Project(base)
+                nj = other.open_job(new_sp).init()
+                nj.doc.x = 7
+                if handles:
+                    other.open_job(id=handles[0].id).remove()
+                universe_jobs = [p.open_job(id=nj.id)] + [p.open_job(dict(sp, s=salt)) for sp, _ in corpus]
+                for order in (("len", "iter", "contains"), ("contains", "iter", "len")):
+                    obs = {}
+                    for what in order:
+                        if what == "len":
+                            obs["len"] = len(cur)
+                        elif what == "iter":
+                            obs["iter"] = [j.id for j in cur]
+                        else:
+                            obs["contains"] = sorted(j.id for j in universe_jobs if j in cur)
+                    n += 1
+                    ids = obs["iter"]
+                    idx = [cur[i].id for i in range(len(ids))]
+                    if obs["len"] != len(ids) or sorted(set(ids) & {j.id for j in universe_jobs}) != obs["contains"] or idx != ids:
+                        if len(viol) < 3:
+                            viol.append({"sig": {"kind": "cursor-contradicts-itself", "first_use": first_use}, "scenario": f"cursor-history/corpus{ci}",
+                                         "input": {"part": "cursor-history", "corpus_index": ci, "salt": salt, "filter": f},
+                                         "expected": "len, iteration, indexing and membership describing one id set", "observed": obs,
+                                         "msg": f"cursor of find_jobs({json.dumps(f)}) first used by {first_use}, then a matching job "
+                                                f"was added and one removed: len {obs['len']}, iteration {ids}, indexing {idx}, "
+                                                f"members {obs['contains']}"})
+            except Exception as e:  # noqa
+                if c06.engine_i.raised_inside_signac(e) and len(viol) < 3:
+                    viol.append({"sig": {"kind": "cursor-raises", "history": True}, "scenario": f"cursor-history/corpus{ci}",
+                                 "input": {"part": "cursor-history", "corpus_index": ci, "salt": salt, "filter": f},
+                                 "expected": "no exception", "observed": repr(e),
+                                 "msg": f"re-using a cursor of find_jobs({json.dumps(f)}) after the workspace changed raised {type(e).__name__}: {e}"})
+                elif not c06.engine_i.raised_inside_signac(e):
+                    raise
+    shutil.rmtree(base, ignore_errors=True)
+    return {"cls": f"curhist{ci}", "viol": viol, "n": n, "nt": [f"curhist{ci}"], "nt_many": True,
+            "sample": {"corpus": ci, "cursor_histories": n}}
+
+
 # ------------------------------------------------------------------ groupby
 GROUP_KEYS = ["spin.up", "sp.docs.k", "a", "sp.a", "b.c", "sp.b.c", "doc.x", "doc.n.m", "b", "doc.n", ["a", "doc.x"], ["sp.a", "b.c"],
               ["doc.x", "doc.n.m"], ["doc.x", "a"], ["a"], None, "callable:a", "callable:id"]
-GROUP_DEFAULTS = [None, -1, "zz"]
-GROUP_FILTERS = [None, {"a": {"$exists": True}}, {"doc.x": {"$exists": True}}, {"a": {"$lt": 3}}]
+GROUP_DEFAULTS = [None, -1, "zz", 0, False, ""]
+GROUP_FILTERS = [None, {"a": {"$exists": True}}, {"doc.x": {"$exists": True}}, {"a": {"$lt": 3}},
+                 {"$and": [{"a": {"$exists": True}}, {"a": {"$lt": 3}}]}]
 
 
 def _own_value(sp, doc, key):
@@ -406,7 +472,8 @@ def eval_groupby(item):
             skipped += 1
             continue
         p = signac.Project(d)
-        cur = p.find_jobs(filt)
+        filt_given = json.loads(json.dumps(filt))  # the object handed to signac; `filt` stays the pristine reference
+        cur = p.find_jobs(filt_given)
         call_key = key
         if isinstance(key, str) and key.startswith("callable:"):
             call_key = (lambda job: job.id) if key == "callable:id" else (lambda job: job.sp["a"])
@@ -421,6 +488,9 @@ def eval_groupby(item):
             continue
         nt.add((json.dumps(key), default is None, len(groups)))
         # grouping must not change what the cursor itself (or the filter object the caller passed) selects
+        if filt_given != filt:
+            bad("groupby-changes-callers-filter", f"groupby({key!r}, default={default!r}) changed the filter object the caller passed: "
+                f"{filt_given} (was {filt})", [key, default, filt], filt, filt_given)
         try:
             after_ids = sorted(j.id for j in cur)
             if after_ids != sorted(selected) or len(cur) != len(selected):
@@ -483,7 +553,7 @@ def _lab_eq(a, b):
 
 
 def evaluate(item):
-    return {"spell": eval_spell, "cursor": eval_cursor, "groupby": eval_groupby}[item[0]](item)
+    return {"spell": eval_spell, "cursor": eval_cursor, "groupby": eval_groupby, "curhist": eval_cursor_history}[item[0]](item)
 
 
 # ------------------------------------------------------------------ universe
@@ -520,6 +590,7 @@ def universe(tier, salt):
             yield ("cursor", ci, salt, cf[k:k + 8])
         for k in range(0, len(specs), 30):
             yield ("groupby", ci, salt, specs[k:k + 30])
+        yield ("curhist", ci, salt)
 
 
 def run(ctx):
@@ -529,7 +600,7 @@ def run(ctx):
         "15 on-disk corpora x {all atoms + depth-2 combinations: every mapping spelling (namespace none/dotted/nested x "
         "operator nested/suffix x path dotted/nested/mixed), sequence of pairs, JSON token, command-line tokens, "
         "find_jobs string form (thorough: also signac.__main__.main())} ; x 34 filters: len/iter/index/all slices/"
-        "membership of every universe job ; x 15 grouping keys x 3 defaults x 4 selections. "
+        "membership of every universe job ; x 18 grouping keys x 6 defaults (None, -1, 'zz', 0, False, '') x 5 selections ; cursors re-used after the workspace changed. "
         "distinct_nontrivial = distinct (spelling kind, front end) / cursor lengths / groupby shapes exercised"),
         extra={"bounds": {"disk_corpora": len(list(c06.disk_corpora())), "combo_atoms": 8 if ctx.quick else 22},
                "alphabet_sizes": {"bases": len(list(bases(ctx.quick))), "group_keys": len(GROUP_KEYS)}},
@@ -551,6 +622,8 @@ def replay(payload, ctx):
             base = ("combo", base[1], [tuple(a) for a in base[2]])
         vs = eval_spell(("spell", ci, salt, [base], True))["viol"]
         return [v for v in vs if v["input"]["spelling_tag"] == inp["spelling_tag"]] or vs
+    if inp["part"] == "cursor-history":
+        return eval_cursor_history(("curhist", ci, salt))["viol"]
     if inp["part"] == "cursor":
         return eval_cursor(("cursor", ci, salt, [inp["filter"]]))["viol"]
     return eval_groupby(("groupby", ci, salt, [inp["spec"]]))["viol"]
